@@ -191,9 +191,32 @@ class LoopCtl:
                 return i
         return None
 
-    def handle(self, I, node, env):
+    def spec_for(self, node):
+        """(label, spec) of a loop.  A loop contract is attached either by the loop's ordinal in the function, or --
+        `where=<text>` -- to the innermost loop whose source contains that text (the command it issues, the call it
+        makes): a loop added or removed elsewhere in the function then does not detach it."""
+        if not hasattr(self, "_by_role"):
+            self._by_role = {}
+            for label, sp in self.con.loops.items():
+                w = getattr(sp, "where", None)
+                if not w:
+                    continue
+                cands = [n for n in self.loops if w in ast.unparse(n)]
+                # innermost: a candidate that contains no other candidate
+                inner = [n for n in cands if not any(m is not n and any(x is m for x in ast.walk(n)) for m in cands)]
+                if len(inner) == 1:
+                    self._by_role[id(inner[0])] = (label, sp)
+        if id(node) in self._by_role:
+            return self._by_role[id(node)]
         k = self.ordinal(node)
-        spec = self.con.loops.get(k) if k is not None else None
+        sp = self.con.loops.get(k) if k is not None else None
+        if sp is not None and getattr(sp, "where", None):
+            sp = None  # that contract belongs to the loop its text names, wherever it is now
+            k = f"{k}'"
+        return k, sp
+
+    def handle(self, I, node, env):
+        k, spec = self.spec_for(node)
         if isinstance(node, ast.For):
             it = I.eval(node.iter, env)
             if isinstance(it, smap.View) or isinstance(it, smap.SColl):
